@@ -47,7 +47,11 @@ CLAIMS["C02"] = proof(
     "cancellation anywhere) at most one write guard, at most one upgradable guard, and a write guard excludes all others; from the invariant state = 2*(R+U) + W + H, mutex word = tickets + U + W + H, U+W+H <= 1. "
     "Schedule half proved: C02_excl_sched — for EVERY interleaving of the atomic sites on the state word by ANY number of threads (control flow over-approximated; compare_exchange with any, however stale, expected value; "
     "the inner mutex taken as an atomic lock, justified by C01_excl_sched, the composition being an assumption of the machine) at most one writer, at most one of {upgradable reader, announced writer}, a writer excludes every reader, "
-    "and the word counts what is held (coq/Sched/RwSched.v, 15 sites). Happens-before half for the RwLock not proved (its Orderings are pinned by Tie_Raw but flow into no theorem). " + CORR, NOTE)
+    "and the word counts what is held (coq/Sched/RwSched.v, 15 sites). "
+    "Happens-before half PROVED in the view semantics: C02_hb_view — coq/Sched/RwHbSched.v runs the same machine with release/acquire views on the state word (every site is an RMW, a compare_exchange or a load; dropping a write guard — write_unlock and both "
+    "downgrades — issues a write ticket into the dropper's view before its releasing operation, dropping a read / upgradable-read guard a read ticket): for any number of threads and every schedule, every thread holding any guard has every earlier write ticket in its "
+    "view and the thread holding the write guard has every earlier read ticket. Which sites acquire / release (gen_rwflags, incl. the `load_ordering` variable of RawWrite / RawUpgrade) is read from the generated site table on every run: premise rw_ord_premises; "
+    "when it fails the check names the weak site and evaluates candidate schedules (one per edge) of the machine to exhibit one on which the statement fails. " + CORR, NOTE)
 CLAIMS["C11"] = proof(
     "History half proved: C11_single_converter_hist (at most one of upgradable guard / write guard / announced writer / pending upgrade in every reachable state), C11_value_frame (the value changes only "
     "through a write guard), C11_pending_upgrade_excludes (try_read / try_upgradable_read / try_write fail while a writer or upgrade is pending). Schedule half not yet proved: a split of a conversion into two "
